@@ -197,9 +197,12 @@ func (w *World) CheckIndexes(tx *bbolt.Tx, m *Model) error {
 			var target boltz.Store = w.Stores[sc.RefTo]
 			if ks, isKid := w.Kids[sc.RefTo]; isKid {
 				target = ks
+				if sc.BackRefOnParent {
+					target = w.Stores[w.KidCfgs[sc.RefTo].Parent]
+				}
 			}
 			for tid := range m.Ents[m.BaseStore(sc.RefTo)] {
-				if !m.LinkEndExists(sc.RefTo, tid) {
+				if !m.RefTargetExists(sc, tid) {
 					continue
 				}
 				want := m.Referrers(sc.RefTo, tid)[sc.Name]
